@@ -147,6 +147,7 @@ def run(ctx):
             # same amplitude, different member of a tie is allowed by the property ("a highest local maximum")
             if not (c["impl"] is not None and pk is not None and c["impl"][1] == pk[1]):
                 ctx.violation("peak-correspondence", dict(case=c, model=pk), found_input=False, seam=c["cls"])
+    refused_fdwra_probe(ctx, rng)
     # (b) histories on the window-set objects
     nh = ctx.budget(80, 1500)
     only = lambda op: op[0] in ("update", "tmask", "manual")
@@ -168,6 +169,67 @@ def run(ctx):
                 if why:
                     ctx.violation("peak-is-highest-local-maximum-in-range", dict(case=hvhist.history_json(h), reason=why, row=row.tolist(), range=list(r), peak=pk),
                                   seam="HvsrTraditional.update_peaks_bounded")
+
+
+def refused_fdwra_probe(ctx, rng):
+    """(c) an azimuthal result handed to frequency_domain_window_rejection with a NEW search range that one azimuth in the middle cannot serve (its curves
+    rise monotonically through the range: no peak, the call is refused half way through the azimuths). Whatever the call did, the object afterwards reports
+    ONE search range (meta and every azimuth agree) and every window of every azimuth holds the peak of that range -- 'changing the range always
+    re-evaluates every peak', for every azimuth."""
+    import hvsrpy
+    for i in range(ctx.budget(12, 120)):
+        freq = np.geomspace(0.2, 20.0, int(rng.integers(24, 48)))
+        naz = int(rng.integers(3, 6))
+        bad = int(rng.integers(1, naz - 1)) if rng.random() < 0.8 else None         # the azimuth without a peak in the new range (sometimes none: call succeeds)
+        lo, hi = float(freq[len(freq) // 2]), float(freq[-3])
+        hvs = []
+        for a in range(naz):
+            nw = int(rng.integers(3, 7))
+            rows = []
+            for _ in range(nw):
+                f_low = float(rng.uniform(0.4, 0.8) * lo)                        # every curve has a peak below the new range ...
+                row = 1.0 + 3.0 * np.exp(-(np.log(freq / f_low) / 0.25) ** 2) + 0.02 * rng.random(len(freq))
+                if a != bad:                                                       # ... and, except for the bad azimuth, one inside it
+                    f_in = float(rng.uniform(1.3 * lo, 0.7 * hi))
+                    row = row + float(rng.uniform(1.0, 4.0)) * np.exp(-(np.log(freq / f_in) / 0.2) ** 2)
+                else:
+                    row = np.sort(row[freq >= lo * 0.9])[0] + np.where(freq >= lo * 0.9, np.linspace(0.0, 2.0, len(freq)), row - np.sort(row[freq >= lo * 0.9])[0])
+                rows.append(row)
+            hvs.append(hvsrpy.HvsrTraditional(freq, np.array(rows)))
+        obj = hvsrpy.HvsrAzimuthal(hvs, [float(x) for x in np.linspace(0, 180, naz, endpoint=False)])
+        calls = [((None, None), None), ((lo, hi), None)]
+        if rng.random() < 0.5:
+            calls.append(((None, hi), None))
+        raised = []
+        for r, kw in calls:
+            try:
+                with quiet():
+                    hvsrpy.frequency_domain_window_rejection(obj, n=2.0, max_iterations=int(rng.integers(1, 5)), search_range_in_hz=r, find_peaks_kwargs=kw)
+                raised.append(None)
+            except Exception as e:      # noqa
+                raised.append(type(e).__name__)
+            reported = tuple(obj.meta.get("search_range_in_hz", (None, None)))
+            ctx.count("refused_fdwra:" + ("refused" if raised[-1] else "completed"))
+            ctx.supporting["azimuthal_range_changes_checked"] = ctx.supporting.get("azimuthal_range_changes_checked", 0) + 1
+            why = None
+            for k, o in enumerate(obj.hvsrs):
+                if tuple(o._search_range_in_hz) != reported:
+                    why = f"azimuth #{k} searched {tuple(o._search_range_in_hz)} while the result reports {reported}"
+                    break
+                for row, f, a_ in zip(o.amplitude, o._main_peak_frq, o._main_peak_amp):
+                    w = oracle(o.frequency, row, reported, None if f != f else [float(f), float(a_)])
+                    if w:
+                        why = f"azimuth #{k}: {w} (range reported by the result: {reported})"
+                        break
+                if why:
+                    break
+            ctx.case(("refused-fdwra", i, len(raised)), True, sample=None)
+            if why:
+                ctx.violation("peaks-track-range-after-history", dict(case=dict(kind="azimuthal result, frequency_domain_window_rejection with a new search range",
+                                                                             n_azimuths=naz, azimuth_without_peak_in_range=bad, calls=[list(c[0]) for c in calls[:len(raised)]],
+                                                                             raised=raised, frequency=freq.tolist(), rows=[h.amplitude.tolist() for h in obj.hvsrs]),
+                                                                   reason=why), seam="frequency_domain_window_rejection on HvsrAzimuthal")
+                break
 
 
 def replay(case):
